@@ -252,6 +252,14 @@ Check histories_stay_coherent : forall Hroot Hcommit Hart Hplural Hshell w,
   (forall sid pol w' out, settle Hroot Hcommit Hart Hplural Hshell w sid pol = (w', Ok out) -> coherent_prov (snd w')).
 Print Assumptions histories_stay_coherent.
 
+(* Both invariants hold of the initial world (one registered worldline, no strand). *)
+Theorem initial_world_wellformed : forall Hroot c,
+  coherent_prov (snd (init_world Hroot c)) /\ wf_strands (fst (init_world Hroot c)).
+Proof. exact init_world_wellformed. Qed.
+Check initial_world_wellformed : forall Hroot c,
+  coherent_prov (snd (init_world Hroot c)) /\ wf_strands (fst (init_world Hroot c)).
+Print Assumptions initial_world_wellformed.
+
 (* Non-vacuity.  One concrete run: a base tick, a fork at tick 0, a parent tick writing slot 13, and three
    strand ticks -- disjoint (writes 15), read-overlapping (reads 13, writes 11) and write-overlapping with a
    different value (writes 13).  The plan imports the first two (the second after a clean revalidation of slot
